@@ -14,7 +14,7 @@ import sys, os, json, subprocess, time, hashlib, re, shutil, importlib.util, con
 ROOT = os.path.dirname(os.path.abspath(__file__))
 sys.path.insert(0, ROOT)
 from frg2c.astload import ExtractError, run_clang
-from frg2c.emit import Extractor, parse_contract_file
+from frg2c.emit import Extractor, parse_contract_file, run_probe
 
 REPO = os.environ.get('FRGV_REPO', '/repo')
 BUILD = os.path.join(ROOT, 'build')
@@ -72,10 +72,13 @@ def extract_unit(u, bdir):
     try:
         run_clang(inst, [os.path.join(REPO, 'include'), os.path.join(ROOT, 'stubs')], ast,
                   extra=u.get('clang_flags', []))
-        ex = Extractor(ast, repo_root=REPO)
+        ex = Extractor(ast, repo_root=REPO, inst_cpp=inst, include_dirs=[os.path.join(REPO, 'include'), os.path.join(ROOT, 'stubs')],
+                       workdir=bdir, clang_flags=u.get('clang_flags', []))
         contracts = os.path.join(u['dir'], u.get('contracts', 'contracts.c'))
         text = ex.lower(u['roots'], parse_contract_file(contracts), exclude=u.get('exclude', ()),
                         extern=u.get('extern', ()))
+        text = run_probe(ex, text, inst, [os.path.join(REPO, 'include'), os.path.join(ROOT, 'stubs')], bdir,
+                         clang_flags=u.get('clang_flags', []))
     except ExtractError as e:
         raise ToolFailure('extraction of unit %s aborted: %s' % (u['name'], e))
     finally:
@@ -83,7 +86,13 @@ def extract_unit(u, bdir):
             os.unlink(ast)
     open(os.path.join(bdir, 'unit.c'), 'w').write(text)
     meta = {'functions': ex.meta, 'externs': ex.externs, 'records': ex.records_used,
-            'extract_s': round(time.time() - t0, 2)}
+            'layout_asserts': ex.layout_asserts, 'extract_s': round(time.time() - t0, 2)}
+    # the layout self-check is decided by a native compile of the lowered text
+    chk = subprocess.run(['gcc', '-fsyntax-only', '-std=gnu11', '-I', os.path.join(ROOT, 'stubs'), '-DFRGV_NATIVE', '-w',
+                          '-include', 'frgv_prelude.h', '-x', 'c', os.path.join(bdir, 'unit.c')],
+                         stdout=subprocess.PIPE, stderr=subprocess.PIPE, text=True)
+    if chk.returncode != 0:
+        raise ToolFailure('unit %s: lowered C does not compile natively / layout self-check failed:\n%s' % (u['name'], chk.stderr[-2000:]))
     # loops that must carry a contract
     need = u.get('loop_contracts_required', [])
     loops = parse_contract_file(contracts)
